@@ -419,7 +419,7 @@ M("c16-wrapper-limit", "C16", "R5.response-limit", "execution.py",
 M("c16-summary-of-wrong-value", "C16", "R1.summary-not-payload", "operation/child.py",
   "                    self.config.summary_generator(raw_result)", "                    self.config.summary_generator(serialized_result)")
 M("c16-benign-ge-plus-one", "C16", "", "operation/child.py",
-  "            if len(serialized_result) > CHECKPOINT_SIZE_LIMIT:", "            if not len(serialized_result) <= CHECKPOINT_SIZE_LIMIT:", expect="silent")
+  "            if payload_size > CHECKPOINT_SIZE_LIMIT:", "            if not payload_size <= CHECKPOINT_SIZE_LIMIT:", expect="silent")
 
 # ----------------------------------------------------------------------------- C05
 M("c05-oversize-parked-forever", "C05", "R3.", "state.py",
@@ -753,6 +753,8 @@ def _swap_handlers(src):
 """
     b = """            except InvocationError:
                 logger.exception("Invocation error. Must terminate.")
+                if (answer := answer_for_failed_checkpointing()) is not None:
+                    return answer
                 # Throw the error to trigger Lambda retry
                 raise
 """
@@ -787,11 +789,13 @@ M("c18-with-items-swapped", "C18", "R4.stop-before-join", "execution.py",
 M("c18-close-does-not-stop", "C18", "R4.stop-before-join", "state.py",
   "    def close(self):\n        self.stop_checkpointing()", "    def close(self):\n        pass")
 M("c18-execution-error-reraised", "C18", "R1.outcome-classification", "execution.py",
-  """                logger.exception("Execution error. Must terminate without retry.")
+  """                if (answer := answer_for_failed_checkpointing()) is not None:
+                    return answer
                 return DurableExecutionInvocationOutput(
                     status=InvocationStatus.FAILED,
                     error=ErrorObject.from_exception(e),
-                ).to_dict()""", """                logger.exception("Execution error. Must terminate without retry.")
+                ).to_dict()""", """                if (answer := answer_for_failed_checkpointing()) is not None:
+                    return answer
                 raise""")
 M("c18-retriable-inverted", "C18", "R1.outcome-classification", "execution.py",
   "    if error.is_retriable():\n        raise error from None", "    if not error.is_retriable():\n        raise error from None")
@@ -992,7 +996,7 @@ M("c15-date-before-datetime", "C15", "R", "serdes.py",
 M("c15-date-decoded-as-datetime", "C15", "R2.decode-rebuilds-the-encoded-type", "serdes.py",
   "                return date.fromisoformat(value)", "                return datetime.fromisoformat(value)")
 M("c15-tuple-routed-to-list", "C15", "R2.decode-rebuilds-the-encoded-type", "serdes.py",
-  "                return tuple(self._unwrap(v, self.dispatcher) for v in value)", "                return [self._unwrap(v, self.dispatcher) for v in value]")
+  "                return tuple([self._unwrap(v, self.dispatcher) for v in value])", "                return [self._unwrap(v, self.dispatcher) for v in value]")
 M("c15-dict-fast-path", "C15", "R5.fast-path-domain", "serdes.py",
   """        if isinstance(obj, list):
             return all(SerDes.is_primitive(item) for item in obj)
@@ -1040,8 +1044,8 @@ M2("benign-rename-local-child", "ALL", "", [{"file": "operation/child.py", "fn":
 M2("benign-rename-local-state", "ALL", "", [{"file": "state.py", "fn": _rename("queued_op", "entry")}], expect="silent")
 M2("benign-rename-local-wrapper", "ALL", "", [{"file": "execution.py", "fn": _rename("serialized_result", "body")}], expect="silent")
 M("benign-extract-size-helper", "ALL", "", "operation/child.py",
-  "            if len(serialized_result) > CHECKPOINT_SIZE_LIMIT:\n                logger.debug(",
-  "            too_large = len(serialized_result) > CHECKPOINT_SIZE_LIMIT\n            if too_large:\n                logger.debug(", expect="silent")
+  "            if payload_size > CHECKPOINT_SIZE_LIMIT:\n                logger.debug(",
+  "            too_large = payload_size > CHECKPOINT_SIZE_LIMIT\n            if too_large:\n                logger.debug(", expect="silent")
 M("benign-early-return-inverted", "ALL", "", "operation/wait.py",
   """        if checkpointed_result.is_succeeded():
             logger.debug(
@@ -1494,9 +1498,9 @@ M("c06-look-without-join", "C06", "R5.verdict-consults-failure-state", "executio
   "                execution_state.stop_checkpointing()\n                checkpoint_future.result()\n                execution_state.raise_if_checkpointing_failed()",
   "                execution_state.raise_if_checkpointing_failed()")
 M("c10-resumed-op-not-asked", "C10", "R6.resumed-operation-checks-first", "operation/base.py",
-  "            if state is not None and not result.checkpointed_result.is_succeeded():", "            if False:")
+  "                state is not None\n                and self.runs_user_code\n", "                False\n                and self.runs_user_code\n")
 M("c16-orphan-query-on-retraversal", "C16", "R2.replay-children-cell", "operation/base.py",
-  "            if state is not None and not result.checkpointed_result.is_succeeded():", "            if state is not None:")
+  "                and self.runs_user_code\n                and not result.checkpointed_result.is_succeeded()\n", "                and self.runs_user_code\n")
 M("c10-put-after-the-lock", "C10", "R1.under-lock", "state.py",
   "                completion_event = self._enqueue_checkpoint(operation_update, is_sync)\n        else:\n            completion_event = self._enqueue_checkpoint(operation_update, is_sync)\n",
   "        completion_event = self._enqueue_checkpoint(operation_update, is_sync)\n")
@@ -1509,8 +1513,16 @@ M("c01-replay-tracking-iterates-unlocked", "C01", "R3.operations-iterated-under-
 M("c09-failed-item-wrapper-type", "C09", "R1.failed-item-carries-recorded-error", "concurrency/executor.py",
   "                            if isinstance(branch_error, CallableRuntimeError)\n", "                            if False\n")
 M("c12-power-overflows", "C12", "R4.backoff-power-cannot-overflow", "retries.py",
-  "        except OverflowError:\n            # a float rate overflows long before the cap applies (2.0 ** 1024): that is the cap\n            base_delay = config.max_delay_seconds\n",
-  "        finally:\n            pass\n")
+  """        except OverflowError:
+            # a float rate overflows long before the cap applies (2.0 ** 1024): the product is beyond
+            # the cap then - unless the initial delay is zero (the product stays zero) or the rate
+            # is negative (the product does not grow towards the cap)
+            base_delay = (
+                config.max_delay_seconds
+                if config.initial_delay_seconds > 0 and config.backoff_rate > 0
+                else 0
+            )
+""", "        finally:\n            pass\n")
 M("c13-recorded-state-truthiness", "C13", "R1.state-threading", "operation/wait_for_condition.py",
   "            and checkpointed_result.result is not None\n", "            and checkpointed_result.result\n")
 M("c16-measures-result-text-only", "C16", "R5.size-measures-the-response", "execution.py",
